@@ -6,6 +6,7 @@ import (
 	"io"
 	"os"
 	"path/filepath"
+	"strings"
 	"testing"
 
 	"verifharness/h"
@@ -392,6 +393,9 @@ func runC12(c *C12Case) ([]string, error) {
 		res, err := cl.QueryLeader(i%c.Conf.Leaders, q.SQL(), h.QueryOpts{Mem: true})
 		if err != nil && h.IsInconclusive(err) {
 			return sortedLabels(labels), err
+		}
+		if err != nil && strings.Contains(err.Error(), "missing partitions") {
+			return sortedLabels(labels), fmt.Errorf("%w: %v", h.ErrInconclusive, err)
 		}
 		if err == nil && res.Stats != nil && (res.Stats.NumSuccessfulPartitions != c.Conf.Partitions || len(res.Stats.MissingPartitions) > 0) {
 			return sortedLabels(labels), fmt.Errorf("%w: partitions not all successful: %+v", h.ErrInconclusive, res.Stats)
